@@ -236,7 +236,9 @@ static Plan gen_cloudkey(uint64_t seed, const Op &opts) {
     p.cfg.set("spec", sp.str());
     p.cfg.setu("kseed", mix64(opts.getu("keybase", 7), r.below((uint64_t) opts.geti("nkeys", 4))));
     p.cfg.setu("wseed", r.next()).setu("rseed", r.next());
-    Op o; o.kind = "op"; o.set("k", "export").seti("transport", (int) r.below(2)); p.ops.push_back(o);
+    // overlap: a second writer exports secret material while the cloud key writer is still open (0 none, 1 secret key set of the
+    // same keys, 2 LWE key + ring key, 3 secret key set of another key); the cloud key file is closed last
+    Op o; o.kind = "op"; o.set("k", "export").seti("transport", (int) r.below(2)).seti("overlap", r.bern(0.6) ? 1 + (int) r.below(3) : 0); p.ops.push_back(o);
     return p;
 }
 
@@ -256,7 +258,32 @@ static void exec_cloudkey(const Plan &p, RunResult &r) {
     Obj ks; ks.kind = K_KSKEY; ks.p = kc->ck->bk->ks; ks.owned = false;
     Obj lp; lp.kind = K_LWEPARAMS; lp.p = (void *) kc->params->in_out_params; lp.owned = false;
     WriteLog C, S, G, K, L;
-    export_via(ck, wc, &C);                 // write recorder: every byte of every write call
+    int overlap = p.ops.empty() ? 0 : (int) p.ops[0].geti("overlap");
+    if (!overlap) export_via(ck, wc, &C);   // write recorder: every byte of every write call
+    else {
+        // history: two writers open at the same time (a client writing both key files, closing them at the end)
+        WriteLog other; WireCfg wc2 = draw_wire(wr, tr);
+        if (sp.n > 100) { wc2.wmode = 0; wc2.wbuf = 1 << 16; }
+        KeyCtx *k2 = overlap == 3 ? get_key(sp, p.cfg.getu("kseed") ^ 0x77) : kc;
+        Obj o1; o1.kind = overlap == 2 ? K_LWEKEY : K_SECRETKEY; o1.p = overlap == 2 ? (void *) k2->sk->lwe_key : (void *) k2->sk; o1.owned = false;
+        Obj o2; o2.kind = K_TGSWKEY; o2.p = (void *) k2->sk->tgsw_key; o2.owned = false;
+        if (tr == 0) {
+            FILE *fa = open_file_writer(&C, wc);
+            obj_export_file(ck, fa);
+            FILE *fb = open_file_writer(&other, wc2);
+            obj_export_file(o1, fb);
+            if (overlap == 2) obj_export_file(o2, fb);
+            fclose(fb);
+            fclose(fa);
+        } else {
+            StoreOutBuf sa(&C, wc.wbuf); std::ostream osa(&sa);
+            obj_export_stream(ck, osa);
+            { StoreOutBuf sb(&other, wc2.wbuf); std::ostream osb(&sb); obj_export_stream(o1, osb); if (overlap == 2) obj_export_stream(o2, osb); osb.flush(); sb.flush_buf(); }
+            osa.flush(); sa.flush_buf();
+        }
+        r.faults.add("history-overlapping-writers");
+        r.probes.add(fmt("overlap_%d", overlap));
+    }
     WireCfg big; big.transport = 1 - tr; big.wbuf = 1 << 16;
     export_via(sk, big, &S); export_via(gp, big, &G); export_via(ks, big, &K); export_via(lp, big, &L);
     r.faults.add(wc.transport ? "F-chunk-stream" : "F-chunk-file");
